@@ -6,8 +6,8 @@ Emits
   gen_http_binding  : binding               the arguments of that _notify_transport call
   gen_notify_prog   : list nop              the statements of RpcServer._notify_transport under ``with self._transport_lock``
   gen_serve_table   : list (tclass * binding)   the isinstance chain of RpcServer.serve, in source order, + the else arm
-Also checks (raises otherwise) that _notify_transport is called from exactly these two sites in the package and
-that serve() calls it before its request loop.  Any shape not listed here raises TranslationBroken.
+Also checks (raises otherwise) that _notify_transport is called from exactly these two sites in the package, that
+serve() calls it before its request loop, and that the middleware keeps no state of its own (only ``_server``).  Any shape not listed here raises TranslationBroken.
 """
 from __future__ import annotations
 
@@ -97,9 +97,47 @@ def _guard_expr(n: ast.expr, site: str) -> str:
     raise TranslationBroken(site, f"unsupported pre-check expression {ast.dump(n)[:120]}")
 
 
+def _stateless_middleware(tree: ast.Module, site: str) -> None:
+    """Source obligation: the middleware keeps no state of its own.
+
+    The model's only binding state is RpcServer's (kind, capabilities); a flag or cache in the middleware would be a
+    further state component that has to be invalidated on every rebinding.  Accept exactly: ``__slots__ = ("_server",)``,
+    an ``__init__`` that only stores the server, and ``process_request`` -- no other attribute, method or class variable.
+    """
+    cls = next((n for n in tree.body if isinstance(n, ast.ClassDef) and n.name == "_TransportNotifyMiddleware"), None)
+    if cls is None:
+        raise TranslationBroken(site, "class _TransportNotifyMiddleware not found")
+    if cls.bases or cls.keywords or cls.decorator_list:
+        raise TranslationBroken(site, "the middleware has bases / decorators")
+    for node in _body(cls):  # type: ignore[arg-type]
+        if isinstance(node, ast.Assign) and len(node.targets) == 1 and isinstance(node.targets[0], ast.Name) and node.targets[0].id == "__slots__":
+            try:
+                slots = ast.literal_eval(node.value)
+            except Exception as e:
+                raise TranslationBroken(site, "__slots__ is not a literal") from e
+            if tuple(slots) != ("_server",):
+                raise TranslationBroken(site, f"the middleware keeps state of its own: __slots__ = {slots!r} (expected only '_server')")
+        elif isinstance(node, ast.FunctionDef) and node.name == "__init__":
+            body = _body(node)
+            ok = (len(body) == 1 and isinstance(body[0], ast.Assign) and len(body[0].targets) == 1
+                  and _is_attr_chain(body[0].targets[0], ["self", "_server"]) and isinstance(body[0].value, ast.Name) and body[0].value.id == "server")
+            if not ok:
+                raise TranslationBroken(site, "__init__ does more than `self._server = server` (the middleware keeps state of its own)")
+        elif isinstance(node, ast.FunctionDef) and node.name == "process_request":
+            for sub in ast.walk(node):
+                if isinstance(sub, (ast.Assign, ast.AugAssign, ast.AnnAssign, ast.Global, ast.Nonlocal, ast.NamedExpr, ast.Delete)):
+                    raise TranslationBroken(site, f"process_request assigns state: {ast.unparse(sub)[:80]}")
+        else:
+            raise TranslationBroken(site, f"unexpected member of the middleware class: {ast.unparse(node)[:80]}")
+    if not any(isinstance(n, ast.Assign) and isinstance(n.targets[0], ast.Name) and n.targets[0].id == "__slots__" for n in cls.body):
+        raise TranslationBroken(site, "the middleware has no __slots__ (instances could grow state)")
+
+
 def guard_definitions(mw_path: Path) -> str:
     site = f"{mw_path}:_TransportNotifyMiddleware.process_request"
-    fn = _find_method(_parse(mw_path), "_TransportNotifyMiddleware", "process_request", site)
+    tree = _parse(mw_path)
+    _stateless_middleware(tree, f"{mw_path}:_TransportNotifyMiddleware")
+    fn = _find_method(tree, "_TransportNotifyMiddleware", "process_request", site)
     body = _body(fn)
     if len(body) != 1 or not isinstance(body[0], ast.If) or body[0].orelse:
         raise TranslationBroken(site, "body is not a single `if` without else")
